@@ -1,0 +1,6 @@
+//go:build !verif
+
+package mqtt
+
+// verifPoint is a schedule point for the verification harness; without the "verif" build tag it is an empty inlined stub.
+func verifPoint(string, *Client) {}
